@@ -22,6 +22,9 @@ def discharge(ex, o, timeout_ms=10000, seed=0, want_model=True):
         return
     t0 = time.time()
     axioms = ex.m.string_axioms()
+    if ex.uses_psum:
+        from . import specfuns
+        axioms = axioms + specfuns.psum_axioms(ex.spec)
     s = make_solver(timeout_ms, seed)
     for a in axioms:
         s.add(a)
@@ -91,6 +94,10 @@ def to_smt2(ex, o):
     s = z3.Solver()
     for a in ex.m.string_axioms():
         s.add(a)
+    if ex.uses_psum:
+        from . import specfuns
+        for a in specfuns.psum_axioms(ex.spec):
+            s.add(a)
     for p in o.pc:
         s.add(p)
     s.add(z3.Not(o.goal))
